@@ -1064,7 +1064,7 @@ impl Engine {
         for i in 0..entries.len() {
             let e = &entries[i];
             let sqe = vh::runner::no_panic(e.op.ctor(), || self.build_sqe(&entries[i]))?;
-            sqes.push(Sqe::Rusl(sqe));
+            sqes.push(Sqe::Rusl(sqe, e.ud));
         }
         let cq = match self.s.run(sqes) {
             Ok(cq) => cq,
